@@ -238,6 +238,18 @@ def main(argv=None):
             rows.append(row)
             continue
         state = r.get('state')
+        # a counterexample that does not replay natively (tool-model error, or a run disturbed by non-determinism such as id()-keyed
+        # grouping or the clock) is retried once with another seed before the obligation is given up as inconclusive
+        if j.kind == 'main' and ob.get('expect') != 'refute' and state in ('POST_FAIL', 'EXEC_ERR') and not getattr(j, 'retried', False):
+            msg0 = [m for m in r['messages'] if m['state'] == state][-1]
+            rep0, _ = (replay_native(ob, msg0.get('call')) if msg0.get('call') else (None, ''))
+            if not (rep0 and rep0.get('reproduces') and rep0.get('pre_ok', True)):
+                j.retried = True
+                run_job(j, tier, seed + 7)
+                if j.res is not None:
+                    r = j.res
+                    state = r.get('state')
+                    row['retried'] = True
         if j.kind == 'twin':
             row['status'] = 'twin-reached' if state in ('POST_FAIL',) else 'twin-NOT-reached(%s)' % state
             rows.append(row)
